@@ -1439,7 +1439,8 @@ def py_merge_offsets(inputs):
 def _offset_hints(op, prev, cur):
     """UNTRUSTED certificates for the Lean checker of merge_and_drop_duplicates (one offset per input):
     the offsets read off the real output where a surviving row identifies its input uniquely (else the
-    documented ones), and the documented ones. The checker verifies whichever it is given."""
+    documented ones), and the documented ones. The checker verifies whichever it is given; the driver adds
+    the offsets of the Lean model's own loop (`mergeOffsets`, Props check_merge_dropdup_accepts_model) as a last candidate."""
     ins = inputs_of(op, prev)
     doc = py_merge_offsets(ins)
     seen = list(doc)
@@ -1654,11 +1655,16 @@ def _object_clauses(ins, cur, by_position):
             blocks.append([(idx[_mask(fz(c), ["object_id"])], c) for c in cur if _mask(fz(c), ["object_id"]) in idx])
     seen = {}
     for bi, blk in enumerate(blocks):
-        offs = {val(c, "object_id") - val(r, "object_id") for r, c in blk}
+        # a row whose object number (read after loading) is missing has no offset (NaN - NaN) and no number that could
+        # collide: it is left to the Lean checker, which is the authority (class C08-K3 when it rejects); this cross-check
+        # compares offsets only over the rows that carry a number
+        offs = {val(c, "object_id") - val(r, "object_id") for r, c in blk if not _nan(val(r, "object_id"))}
         if len(offs) > 1:
-            out.append(("merge-keeps-each-inputs-grouping", f"input {bi}: object offsets {sorted(offs)}")); break
+            out.append(("merge-keeps-each-inputs-grouping", f"input {bi}: object offsets {sorted(offs, key=lambda v: (_nan(v), v if not _nan(v) else 0.0))}")); break
         for r, c in blk:
             o = val(c, "object_id")
+            if _nan(o):
+                continue
             if seen.setdefault(o, bi) != bi:
                 out.append(("merge-object-numbers-never-collide", f"object number {o:g} used by inputs {seen[o]} and {bi}")); return out
     return out
@@ -2006,7 +2012,9 @@ def probes(rng):
 
 LEVEL_TEXT = ("Lean 4 verified checkers deciding the clauses of the statement on the REAL output of every operation (checkSchema/checkSubset/checkRemove/checkSplit/"
               "checkIntersect/checkDropDup/checkMergeRenumber/checkMergeDropDup/checkRenumberParticles/checkRenumberObjects with check_*_sound and check_*_complete, "
-              "check_history_rows for an accepted observed history), plus Lean 4 theorems about an executable model of get_motl_subset / remove_feature / split_by_feature / get_motl_intersection / drop_duplicates / "
+              "check_step_iff / check_run_iff: checkStep and checkRun decide EXACTLY the clause Props; check_history_rows and check_merge_renumber_then_selections_nodup for an accepted observed history; "
+              "check_*_accepts_model for EVERY checker incl. the two merges on arbitrary tagged inputs, check_run_accepts_model: checkRun accepts the model's whole run for every history, "
+              "history_rows_via_checkers; check_subset_iff_model / check_renumber_particles_iff_model), plus Lean 4 theorems about an executable model of get_motl_subset / remove_feature / split_by_feature / get_motl_intersection / drop_duplicates / "
               "merge_and_renumber / merge_and_drop_duplicates / renumber_particles / renumber_objects_sequentially, for all lists, all value lists and all "
               "operation sequences, no size bound (subset_spec, remove_spec, remove_subset_complement, split_partition, split_disjoint, intersect_spec, "
               "dropDup_spec, mergeRenumber_ids, mergeRenumber_objects, renumberParticles_spec, renumberObjects_spec, step_rows_literal, history_rows (histFill), history_rows_literal, selection_history_rows, "
@@ -2018,6 +2026,10 @@ LEVEL_TEXT = ("Lean 4 verified checkers deciding the clauses of the statement on
 LEVEL_NOTE = ("trusted: Lean kernel; translator anchors (alpha-normalised: names of locals are free; signatures with defaults and whole-body digests of the 16 functions involved); "
               "pandas semantics listed in assumptions (probed each run); the schema clause (exactly 20 fields) is a "
               "type in the model (history_schema) and is decided for the code by checkSchema on the real column names (check_schema_iff); NaN->0.0 filling by Motl.load is modelled explicitly "
-              "and permitted only for intersection and merges with a bare-DataFrame input (Op.mayFill); accepts_model theorems exist for every checker except the two merges")
+              "and permitted only for intersection and merges with a bare-DataFrame input (Op.mayFill); accepts_model theorems exist for every checker "
+              "(check_merge_renumber_accepts_model / check_merge_dropdup_accepts_model: every list of tagged inputs, empty and bare-DataFrame inputs included) and for whole histories "
+              "(check_run_accepts_model, hypotheses: fill idempotent, nat injective), so the model-level history theorem is also a corollary of the checker theorems (history_rows_via_checkers); "
+              "the merge-and-drop-duplicates checker reads the keys of a bare-DataFrame input (object_id, subtomo_id, score) after loading (loadKeys) and is always offered the model's own "
+              "offsets (mergeOffsets on the REAL previous table) as one more certificate; the theorems are over ordered commutative rings with reflexive =, the driver runs the same defs at IEEE doubles")
 TECHNIQUE = "Lean 4 proof (list induction, permutation/partition lemmas, sortedness invariants, ordered-ring arithmetic) + regenerated operators + bit-exact differential histories"
 DESIGN_REF = "DESIGN.md section 4, C08"
